@@ -24,6 +24,7 @@ import (
 	"github.com/gotd/td/mtproto"
 	"github.com/gotd/td/mtproto/salts"
 	"github.com/gotd/td/proto"
+	"github.com/gotd/td/transport"
 
 	"verif/harness/hc"
 )
@@ -39,7 +40,9 @@ func flat(s string) string { return strings.Join(strings.Fields(s), " ") }
 var timeUnits = map[string]int64{"time.Nanosecond": 1, "time.Microsecond": 1e3, "time.Millisecond": 1e6,
 	"time.Second": 1e9, "time.Minute": 60e9, "time.Hour": 3600e9}
 
-func durationOf(f *hc.Facts, e ast.Expr) (int64, bool) {
+// durationOf evaluates a time.Duration expression in nanoseconds: units, literals, products,
+// package constants, time.Duration(x) conversions.
+func durationOf(f *hc.Facts, dir string, e ast.Expr) (int64, bool) {
 	switch x := e.(type) {
 	case *ast.SelectorExpr:
 		v, ok := timeUnits[f.Src(x)]
@@ -47,11 +50,20 @@ func durationOf(f *hc.Facts, e ast.Expr) (int64, bool) {
 	case *ast.BasicLit:
 		v, err := strconv.ParseInt(x.Value, 10, 64)
 		return v, err == nil
+	case *ast.Ident:
+		if s, ok := f.ConstInt(dir, x.Name); ok {
+			v, err := strconv.ParseInt(s, 10, 64)
+			return v, err == nil
+		}
 	case *ast.ParenExpr:
-		return durationOf(f, x.X)
+		return durationOf(f, dir, x.X)
+	case *ast.CallExpr:
+		if f.Src(x.Fun) == "time.Duration" && len(x.Args) == 1 {
+			return durationOf(f, dir, x.Args[0])
+		}
 	case *ast.BinaryExpr:
-		a, ok1 := durationOf(f, x.X)
-		b, ok2 := durationOf(f, x.Y)
+		a, ok1 := durationOf(f, dir, x.X)
+		b, ok2 := durationOf(f, dir, x.Y)
 		if ok1 && ok2 && x.Op == token.MUL {
 			return a * b, true
 		}
@@ -59,61 +71,169 @@ func durationOf(f *hc.Facts, e ast.Expr) (int64, bool) {
 	return 0, false
 }
 
-func stmts(f *hc.Facts, dir, fn string) (string, bool) {
-	fd := f.FuncDecl(dir, fn)
-	if fd == nil || fd.Body == nil {
+// cmp describes `a OP b` normalised so that the left operand is `left` (ok=false if the expression
+// is not a comparison between exactly these two operands).
+func cmp(f *hc.Facts, e ast.Expr, left, right string) (op string, ok bool) {
+	for {
+		p, isP := e.(*ast.ParenExpr)
+		if !isP {
+			break
+		}
+		e = p.X
+	}
+	be, isB := e.(*ast.BinaryExpr)
+	if !isB {
 		return "", false
 	}
-	var parts []string
-	for _, st := range fd.Body.List {
-		parts = append(parts, flat(f.Src(st)))
+	x, y := flat(f.Src(be.X)), flat(f.Src(be.Y))
+	flip := map[token.Token]string{token.LSS: ">", token.LEQ: ">=", token.GTR: "<", token.GEQ: "<=", token.EQL: "==", token.NEQ: "!="}
+	same := map[token.Token]string{token.LSS: "<", token.LEQ: "<=", token.GTR: ">", token.GEQ: ">=", token.EQL: "==", token.NEQ: "!="}
+	switch {
+	case x == left && y == right:
+		op, ok = same[be.Op]
+	case x == right && y == left:
+		op, ok = flip[be.Op]
 	}
-	return strings.Join(parts, " ; "), true
+	return op, ok && op != ""
 }
+
+func isLog(s string) bool { return strings.HasPrefix(s, "c.log.") || strings.HasPrefix(s, "logger.") }
 
 func facts(f *hc.Facts) {
 	f.Const("codeIncorrectServerSalt", "mtproto", "codeIncorrectServerSalt")
+	f.Const("defaultSaltsNum", "mtproto", "defaultSaltsNum")
 
-	// lookahead of updateSalt: the argument of `.Add(...)`
-	found := false
+	// ---- Conn.updateSalt: Get(now + lookahead); store only when found
+	found, guarded, stores := false, false, false
 	if fd := f.FuncDecl("mtproto", "Conn.updateSalt"); fd != nil {
 		ast.Inspect(fd.Body, func(n ast.Node) bool {
 			ce, ok := n.(*ast.CallExpr)
 			if !ok || len(ce.Args) != 1 {
 				return true
 			}
-			if se, ok := ce.Fun.(*ast.SelectorExpr); ok && se.Sel.Name == "Add" {
-				if v, ok := durationOf(f, ce.Args[0]); ok && !found {
+			if se, ok := ce.Fun.(*ast.SelectorExpr); ok && se.Sel.Name == "Add" && flat(f.Src(se.X)) == "c.clock.Now()" {
+				if v, ok := durationOf(f, "mtproto", ce.Args[0]); ok && !found {
 					found = true
-					f.Raw(fmt.Sprintf("def lookaheadNs : Nat := %d -- %s in Conn.updateSalt", v, f.Src(ce.Args[0])))
+					f.Raw(fmt.Sprintf("def lookaheadNs : Nat := %d -- c.clock.Now().Add(%s) in Conn.updateSalt", v, f.Src(ce.Args[0])))
 				}
 			}
 			return true
 		})
+		var body []string
+		for _, st := range fd.Body.List {
+			body = append(body, flat(f.Src(st)))
+		}
+		if len(body) == 3 && strings.HasPrefix(body[0], "salt, ok := c.salts.Get(") && body[1] == "if !ok { return }" && body[2] == "c.storeSalt(salt)" {
+			guarded, stores = true, true
+		}
 	}
 	if !found {
 		f.Missing("lookaheadNs", "c.clock.Now().Add(<duration>) not found in Conn.updateSalt")
 	}
-	for _, p := range [][3]string{
-		{"updateSaltBody", "mtproto", "Conn.updateSalt"},
-		{"storeBody", "mtproto/salts", "Salts.Store"},
-		{"getBody", "mtproto/salts", "Salts.Get"},
-		{"resetBody", "mtproto/salts", "Salts.Reset"},
-		{"lessBody", "mtproto/salts", "saltSlice.Less"},
-	} {
-		if s, ok := stmts(f, p[1], p[2]); ok {
-			f.Str(p[0], s, "statements of "+p[1]+"."+p[2])
-		} else {
-			f.Missing(p[0], p[1]+"."+p[2]+" not found")
+	f.Bool("updateSaltStoresWhenFound", guarded && stores, "updateSalt: salt, ok := c.salts.Get(…); if !ok { return }; c.storeSalt(salt)")
+
+	// ---- salts.Salts.Get: which end of the sorted slice is examined, the validity comparison,
+	// the in-place filter, the deadline in seconds
+	getOK := false
+	if fd := f.FuncDecl("mtproto/salts", "Salts.Get"); fd != nil {
+		atLast, atFirst, valid, filter, date, retry, empty := false, false, "", "", false, false, false
+		ast.Inspect(fd.Body, func(n ast.Node) bool {
+			switch x := n.(type) {
+			case *ast.IfStmt:
+				if x.Init != nil {
+					in := flat(f.Src(x.Init))
+					if in == "salt := s.salts[len(s.salts)-1]" {
+						atLast = true
+					}
+					if in == "salt := s.salts[0]" {
+						atFirst = true
+					}
+					if op, ok := cmp(f, x.Cond, "salt.ValidUntil", "date"); ok && len(x.Body.List) == 1 && flat(f.Src(x.Body.List[0])) == "return salt.Salt, true" {
+						valid = op
+					}
+				} else if op, ok := cmp(f, x.Cond, "salt.ValidUntil", "date"); ok {
+					var b []string
+					for _, st := range x.Body.List {
+						b = append(b, flat(f.Src(st)))
+					}
+					if strings.Join(b, " ; ") == "s.salts[n] = salt ; n++" {
+						filter = op
+					}
+				} else if c := flat(f.Src(x.Cond)); (c == "len(s.salts) < 1" || c == "len(s.salts) == 0") && len(x.Body.List) == 1 && flat(f.Src(x.Body.List[0])) == "return 0, false" {
+					empty = true
+				}
+			case *ast.AssignStmt:
+				if flat(f.Src(x)) == "date := int(deadline.Unix())" {
+					date = true
+				}
+			case *ast.BranchStmt:
+				if x.Tok == token.GOTO {
+					retry = true
+				}
+			}
+			return true
+		})
+		if (atLast != atFirst) && valid != "" && filter != "" && date && retry && empty {
+			getOK = true
+			f.Bool("getLooksAtLast", atLast, "Get examines s.salts[len-1] (false: s.salts[0])")
+			f.Bool("getValidStrict", valid == ">", "returned if salt.ValidUntil > date (false: another operator: "+valid+")")
+			f.Bool("getFilterStrict", filter == ">", "the filter keeps salt.ValidUntil > date (false: "+filter+")")
+			f.Bool("getStructure", valid == ">" || valid == ">=", "empty → (0,false); date = deadline.Unix(); examine one end; else filter in place and retry")
 		}
 	}
-	// Conn.session starts with c.updateSalt(); every EncryptedMessageData built by
-	// newEncryptedMessage takes Salt from that session value.
+	if !getOK {
+		for _, n := range []string{"getLooksAtLast", "getValidStrict", "getFilterStrict", "getStructure"} {
+			f.Missing(n, "salts.Salts.Get: structure not recognised")
+		}
+	}
+	// ---- saltSlice.Less: sorted by descending ValidUntil?
+	lessOK := false
+	if fd := f.FuncDecl("mtproto/salts", "saltSlice.Less"); fd != nil && len(fd.Body.List) == 1 {
+		if rs, ok := fd.Body.List[0].(*ast.ReturnStmt); ok && len(rs.Results) == 1 {
+			if op, ok := cmp(f, rs.Results[0], "s[i].ValidUntil", "s[j].ValidUntil"); ok {
+				lessOK = true
+				f.Bool("lessDescending", op == ">" || op == ">=", "Less(i, j) = s[i].ValidUntil "+op+" s[j].ValidUntil")
+			}
+		}
+	}
+	if !lessOK {
+		f.Missing("lessDescending", "saltSlice.Less not recognised")
+	}
+	// ---- Salts.Store: append, first-wins duplicate filter on the salt value, sort
+	app, dedup, sorts := false, false, false
+	if fd := f.FuncDecl("mtproto/salts", "Salts.Store"); fd != nil {
+		order := 0
+		for _, st := range fd.Body.List {
+			src := flat(f.Src(st))
+			switch {
+			case src == "s.salts = append(s.salts, salts...)":
+				app = order == 0
+				order = 1
+			case strings.HasPrefix(src, "for _, salt := range s.salts {") && strings.Contains(src, "if _, ok := dedup[salt.Salt]; !ok { dedup[salt.Salt] = struct{}{} s.salts[n] = salt n++ }"):
+				dedup = order == 1
+				order = 2
+			case src == "sort.Sort(saltSlice(s.salts))" || src == "sort.Stable(saltSlice(s.salts))":
+				sorts = order == 2
+			}
+		}
+	}
+	f.Bool("storeAppendDedupSort", app && dedup && sorts, "Store: append; keep the first occurrence of every salt value; sort")
+	resets := false
+	if fd := f.FuncDecl("mtproto/salts", "Salts.Reset"); fd != nil {
+		for _, st := range fd.Body.List {
+			if s := flat(f.Src(st)); s == "s.salts = s.salts[:0]" || s == "s.salts = nil" {
+				resets = true
+			}
+		}
+	}
+	f.Bool("resetEmpties", resets, "Reset empties the slice")
+
+	// ---- every outgoing message takes its salt from c.session(), which runs updateSalt first
 	first := ""
 	if fd := f.FuncDecl("mtproto", "Conn.session"); fd != nil && fd.Body != nil && len(fd.Body.List) > 0 {
 		first = flat(f.Src(fd.Body.List[0]))
 	}
-	f.Str("sessionFirstStmt", first, "first statement of Conn.session")
+	f.Bool("sessionUpdatesSaltFirst", first == "c.updateSalt()", "Conn.session starts with c.updateSalt()")
 	lits, withSalt, sess := 0, 0, ""
 	if fd := f.FuncDecl("mtproto", "Conn.newEncryptedMessage"); fd != nil && fd.Body != nil {
 		if len(fd.Body.List) > 0 {
@@ -131,31 +251,44 @@ func facts(f *hc.Facts) {
 			return true
 		})
 	}
-	f.Str("newEncryptedMessageFirstStmt", sess, "first statement of Conn.newEncryptedMessage")
+	f.Bool("newEncryptedMessageReadsSession", sess == "s := c.session()", "Conn.newEncryptedMessage starts with s := c.session()")
 	f.Nat("encryptedDataLiterals", lits, "crypto.EncryptedMessageData literals in Conn.newEncryptedMessage")
 	f.Nat("encryptedDataLiteralsWithSessionSalt", withSalt, "… of which have `Salt: s.Salt`")
-	// the bad-salt branch of Invoke
-	branch := ""
+
+	// ---- the bad-salt branch of Invoke: operations in order (1 storeSalt(NewSalt), 2 salts.Reset(),
+	// 3 return c.rpc.Do(ctx, req), 9 other), and its condition
+	var ops []string
+	cond := false
 	if fd := f.FuncDecl("mtproto", "Conn.Invoke"); fd != nil {
 		ast.Inspect(fd.Body, func(n ast.Node) bool {
 			is, ok := n.(*ast.IfStmt)
 			if !ok || !strings.Contains(f.Src(is.Cond), "codeIncorrectServerSalt") {
 				return true
 			}
-			var parts []string
+			if be, ok := is.Cond.(*ast.BinaryExpr); ok && be.Op == token.LAND && flat(f.Src(be.X)) == "errors.As(err, &badMsgErr)" {
+				if op, ok := cmp(f, be.Y, "badMsgErr.Code", "codeIncorrectServerSalt"); ok && op == "==" {
+					cond = true
+				}
+			}
 			for _, st := range is.Body.List {
 				s := flat(f.Src(st))
-				if strings.HasPrefix(s, "c.log.") {
-					continue
+				switch {
+				case isLog(s):
+				case s == "c.storeSalt(badMsgErr.NewSalt)":
+					ops = append(ops, "1")
+				case s == "c.salts.Reset()":
+					ops = append(ops, "2")
+				case s == "return c.rpc.Do(ctx, req)":
+					ops = append(ops, "3")
+				default:
+					ops = append(ops, "9")
 				}
-				parts = append(parts, s)
 			}
-			branch = "if " + flat(f.Src(is.Cond)) + " { " + strings.Join(parts, " ; ") + " }"
 			return false
 		})
 	}
-	f.Str("invokeBadSaltBranch", branch, "the bad-salt branch of Conn.Invoke (log statements dropped)")
-	// handleBadMsg passes the new salt of bad_server_salt to the waiting request
+	f.Raw("def invokeBadSaltOps : List Nat := [" + strings.Join(ops, ", ") + "] -- bad-salt branch of Conn.Invoke: 1 storeSalt(NewSalt), 2 salts.Reset(), 3 return rpc.Do again, 9 other")
+	f.Bool("invokeBadSaltCond", cond, "the branch is taken iff errors.As(err, &badMsgErr) && badMsgErr.Code == codeIncorrectServerSalt")
 	notify := 0
 	if fd := f.FuncDecl("mtproto", "Conn.handleBadMsg"); fd != nil {
 		ast.Inspect(fd.Body, func(n ast.Node) bool {
@@ -166,6 +299,46 @@ func facts(f *hc.Facts) {
 		})
 	}
 	f.Nat("badServerSaltNotifies", notify, "NotifyError(bad.BadMsgID, {Code, NewSalt: bad.NewServerSalt}) calls in Conn.handleBadMsg")
+
+	// ---- the refresh loop: wait for the session, fetch at once, then on every tick of saltFetchInterval
+	waits, firstFetch, ticks, numOK := false, false, false, false
+	if fd := f.FuncDecl("mtproto", "Conn.saltLoop"); fd != nil {
+		stage := 0
+		for _, st := range fd.Body.List {
+			s := flat(f.Src(st))
+			switch {
+			case stage == 0 && strings.HasPrefix(s, "select { case <-c.gotSession.Ready():"):
+				waits, stage = true, 1
+			case stage == 1 && strings.HasPrefix(s, "if err := c.getSalts(ctx); err != nil {"):
+				firstFetch, stage = true, 2
+			case stage == 2 && s == "ticker := c.clock.Ticker(c.saltFetchInterval)":
+				stage = 3
+			case stage == 3 && strings.HasPrefix(s, "for { select { case <-ticker.C(): if err := c.getSalts(ctx); err != nil {"):
+				ticks = true
+			}
+		}
+	}
+	if fd := f.FuncDecl("mtproto", "Conn.getSalts"); fd != nil {
+		numOK = strings.Contains(flat(f.Src(fd.Body)), "&mt.GetFutureSaltsRequest{ Num: defaultSaltsNum, }")
+	}
+	f.Bool("saltLoopStructure", waits && firstFetch && ticks, "saltLoop: wait for the session, getSalts, then getSalts on every tick of c.saltFetchInterval")
+	f.Bool("getSaltsAsksDefaultNum", numOK, "getSalts requests defaultSaltsNum salts")
+	fetch := int64(0)
+	if fd := f.FuncDecl("mtproto", "Options.setDefaults"); fd != nil {
+		ast.Inspect(fd.Body, func(n ast.Node) bool {
+			if as, ok := n.(*ast.AssignStmt); ok && len(as.Lhs) == 1 && flat(f.Src(as.Lhs[0])) == "opt.SaltFetchInterval" {
+				if v, ok := durationOf(f, "mtproto", as.Rhs[0]); ok {
+					fetch = v
+				}
+			}
+			return true
+		})
+	}
+	if fetch > 0 {
+		f.Raw(fmt.Sprintf("def defaultSaltFetchIntervalNs : Nat := %d -- default of Options.SaltFetchInterval", fetch))
+	} else {
+		f.Missing("defaultSaltFetchIntervalNs", "default of Options.SaltFetchInterval not found")
+	}
 }
 
 // ---------------------------------------------------------------------------------- oracle
@@ -362,7 +535,19 @@ func (x reaction) String() string {
 	return fmt.Sprintf("b%d:%d", x.code, x.newSalt)
 }
 
-const waitFrame = 60 * time.Second
+// watchdog is generous and grows with the machine's load (nothing in this harness asserts that
+// something happens *within* a time; the watchdog only turns a genuine hang into a report).
+func watchdog() time.Duration {
+	d := 120 * time.Second
+	if b, err := os.ReadFile("/proc/loadavg"); err == nil {
+		if f := strings.Fields(string(b)); len(f) > 0 {
+			if l, err := strconv.ParseFloat(f[0], 64); err == nil && l > 16 {
+				d += time.Duration(l/16) * 60 * time.Second
+			}
+		}
+	}
+	return d
+}
 
 // dumpStacks writes all goroutine stacks to stderr (kept by ./check in the replay file) when a
 // watchdog expires, so that a hang can be told from a slow machine.
@@ -403,8 +588,8 @@ func (h *connHarness) takeFrame() (sentFrame, error) {
 	select {
 	case f := <-h.tr.frames:
 		return f, nil
-	case <-time.After(waitFrame):
-		return sentFrame{}, fmt.Errorf("no frame written within %s (input %s)", waitFrame, h.line.String())
+	case <-time.After(watchdog()):
+		return sentFrame{}, fmt.Errorf("no frame written within the watchdog (input %s)", h.line.String())
 	}
 }
 
@@ -554,9 +739,9 @@ func runConn(c *hc.Ctx, r *hc.RNG) (line, impl string, tie, nontrivial bool, err
 				case invErr = <-done:
 					returned = true
 					continue
-				case <-time.After(waitFrame):
+				case <-time.After(watchdog()):
 					dumpStacks()
-					return lb.String(), "", false, false, fmt.Errorf("Invoke wrote no frame within %s (input %s)", waitFrame, lb.String())
+					return lb.String(), "", false, false, fmt.Errorf("Invoke wrote no frame within the watchdog (input %s)", lb.String())
 				}
 				frames = append(frames, f)
 				if j == 0 {
@@ -585,9 +770,9 @@ func runConn(c *hc.Ctx, r *hc.RNG) (line, impl string, tie, nontrivial bool, err
 					// unblock it
 					h.deliver(&proto.Result{RequestMessageID: f.msgID, Result: encode(&mt.MsgsAck{MsgIDs: []int64{1}}).Buf})
 					invErr = <-done
-				case <-time.After(waitFrame):
+				case <-time.After(watchdog()):
 					dumpStacks()
-					return lb.String(), "", false, false, fmt.Errorf("Invoke did not return within %s (input %s)", waitFrame, lb.String())
+					return lb.String(), "", false, false, fmt.Errorf("Invoke did not return within the watchdog (input %s); goroutine stacks are on stderr", lb.String())
 				}
 			}
 			// drain frames written but not consumed by the script (none expected)
@@ -645,6 +830,181 @@ func runConn(c *hc.Ctx, r *hc.RNG) (line, impl string, tie, nontrivial bool, err
 	return lb.String(), strings.Join(h.out, " "), h.tie, writes >= 2, nil
 }
 
+// ---------------------------------------------------------------------------------- part C: the refresh loop, through Run
+
+type refreshFrame struct {
+	typeID uint32
+	msgID  int64
+	salt   int64
+	num    int
+	pingID int64
+	at     time.Time
+}
+
+type refreshTransport struct {
+	key     crypto.AuthKey
+	dec     crypto.Cipher
+	out     chan refreshFrame
+	in      chan []byte
+	session chan int64
+	once    sync.Once
+}
+
+func (t *refreshTransport) Send(ctx context.Context, b *bin.Buffer) error {
+	cp := &bin.Buffer{Buf: append([]byte{}, b.Buf...)}
+	d, err := t.dec.DecryptFromBuffer(t.key, cp)
+	if err != nil {
+		return nil
+	}
+	t.once.Do(func() { t.session <- d.SessionID })
+	p := &bin.Buffer{Buf: d.Data()}
+	id, _ := p.PeekID()
+	w := refreshFrame{typeID: id, msgID: d.MessageID, salt: d.Salt, at: time.Now()}
+	switch id {
+	case mt.GetFutureSaltsRequestTypeID:
+		var r mt.GetFutureSaltsRequest
+		if r.Decode(p) == nil {
+			w.num = r.Num
+		}
+	case mt.PingDelayDisconnectRequestTypeID:
+		var r mt.PingDelayDisconnectRequest
+		if r.Decode(p) == nil {
+			w.pingID = r.PingID
+		}
+	}
+	select {
+	case t.out <- w:
+	case <-ctx.Done():
+	}
+	return nil
+}
+
+func (t *refreshTransport) Recv(ctx context.Context, b *bin.Buffer) error {
+	select {
+	case f := <-t.in:
+		b.ResetTo(f)
+		return nil
+	case <-ctx.Done():
+		return ctx.Err()
+	}
+}
+func (t *refreshTransport) Close() error { return nil }
+
+var _ transport.Conn = (*refreshTransport)(nil)
+
+type rawPayload []byte
+
+func (p rawPayload) Encode(b *bin.Buffer) error { b.Put(p); return nil }
+
+type refreshResult struct {
+	input         string
+	beforeSession int     // get_future_salts written before new_session_created was delivered
+	requests      int     // … written afterwards until the observation ended
+	elapsed       time.Duration
+	wrongNum      int
+	interval      time.Duration
+	futureSalt    int64
+	carried       int // frames written after the future salts were delivered …
+	carriedOK     int // … that carry the delivered future salt
+}
+
+// runRefresh observes saltLoop on a whole connection (public New/Run, real clock, short fetch
+// interval): no get_future_salts before the session exists, one at once afterwards, then one per
+// interval; the answer's salt (valid for hours) is then attached to everything that is written.
+func runRefresh(seed uint64) (res refreshResult, herr error) {
+	r := hc.NewRNG(seed)
+	var key crypto.Key
+	r.Read(key[:])
+	ak := key.WithID()
+	tr := &refreshTransport{key: ak, dec: crypto.NewServerCipher(r.Fork()), out: make(chan refreshFrame, 4096), in: make(chan []byte, 256), session: make(chan int64, 1)}
+	srv := crypto.NewServerCipher(r.Fork())
+	srvIDs := proto.NewMessageIDGen(time.Now)
+	res.interval = time.Duration(r.Range(20, 40)) * time.Millisecond
+	conn := mtproto.New(func(ctx context.Context) (transport.Conn, error) { return tr, nil }, mtproto.Options{
+		Random: r.Fork(), Key: ak, Cipher: crypto.NewClientCipher(r.Fork()), CompressThreshold: -1,
+		PingInterval: 15 * time.Millisecond, PingTimeout: 10 * time.Minute, SaltFetchInterval: res.interval,
+	})
+	ctx, cancel := context.WithCancel(context.Background())
+	defer cancel()
+	runDone := make(chan error, 1)
+	go func() {
+		runDone <- conn.Run(ctx, func(ctx context.Context) error { <-ctx.Done(); return ctx.Err() })
+	}()
+	var session int64
+	send := func(typ proto.MessageType, seq int32, payload bin.Encoder) {
+		var b bin.Buffer
+		if err := srv.Encrypt(ak, crypto.EncryptedMessageData{SessionID: session, Salt: 1, MessageID: srvIDs.New(typ), SeqNo: seq, Message: payload}, &b); err == nil {
+			tr.in <- b.Buf
+		}
+	}
+	select {
+	case session = <-tr.session:
+	case err := <-runDone:
+		return res, fmt.Errorf("Run ended early: %v", err)
+	case <-time.After(watchdog()):
+		return res, fmt.Errorf("no frame written within the watchdog")
+	}
+	res.input = fmt.Sprintf("refresh seed=%d interval=%s", seed, res.interval)
+	// phase 1: the session has not been created yet
+	phase1 := time.After(3 * res.interval)
+	for done := false; !done; {
+		select {
+		case w := <-tr.out:
+			if w.typeID == mt.GetFutureSaltsRequestTypeID {
+				res.beforeSession++
+			}
+		case <-phase1:
+			done = true
+		}
+	}
+	// phase 2
+	res.futureSalt = int64(r.U64())
+	t0 := time.Now()
+	send(proto.MessageFromServer, 1, &mt.NewSessionCreated{FirstMsgID: 4, UniqueID: 9, ServerSalt: 1})
+	delivered := false
+	deadline := time.After(watchdog())
+	for res.requests < 5 {
+		select {
+		case w := <-tr.out:
+			switch w.typeID {
+			case mt.GetFutureSaltsRequestTypeID:
+				res.requests++
+				res.elapsed = w.at.Sub(t0)
+				if w.num != 4 {
+					res.wrongNum++
+				}
+				if !delivered {
+					delivered = true
+					nowS := int(time.Now().Unix())
+					send(proto.MessageServerResponse, 3, &mt.FutureSalts{ReqMsgID: w.msgID, Now: nowS, Salts: []mt.FutureSalt{
+						{ValidSince: nowS - 60, ValidUntil: nowS + 7200, Salt: res.futureSalt},
+						{ValidSince: nowS + 7200, ValidUntil: nowS + 14400, Salt: res.futureSalt + 1},
+					}})
+				}
+			case mt.PingDelayDisconnectRequestTypeID:
+				send(proto.MessageServerResponse, 0, &mt.Pong{MsgID: w.msgID, PingID: w.pingID})
+			}
+			if delivered && res.requests >= 3 { // the answer has certainly been processed by now? not necessarily: only count, decide below
+				res.carried++
+				if w.salt == res.futureSalt {
+					res.carriedOK++
+				}
+			}
+		case err := <-runDone:
+			return res, fmt.Errorf("Run ended early: %v", err)
+		case <-deadline:
+			return res, fmt.Errorf("only %d get_future_salts requests within the watchdog (interval %s)", res.requests, res.interval)
+		}
+	}
+	cancel()
+	select {
+	case <-runDone:
+	case <-time.After(watchdog()):
+		return res, fmt.Errorf("Run did not return after cancellation")
+	}
+	return res, nil
+}
+
 // ---------------------------------------------------------------------------------- run
 
 // maskTies replaces the salt of tokens `vu/salt` by `*` where several salts share the expiry.
@@ -690,6 +1050,48 @@ func run(c *hc.Ctx) error {
 		}
 		lines, impls, masks, skip = append(lines, line), append(impls, impl), append(masks, nil), append(skip, tie)
 	}
+	// ---- part C: the refresh loop on whole connections
+	nC := c.N(6, 40)
+	rres := make([]refreshResult, nC)
+	rerr := make([]error, nC)
+	var rwg sync.WaitGroup
+	rsem := make(chan struct{}, 6)
+	for i := 0; i < nC; i++ {
+		seed := r.U64()
+		rwg.Add(1)
+		go func(i int) {
+			defer rwg.Done()
+			rsem <- struct{}{}
+			defer func() { <-rsem }()
+			rres[i], rerr[i] = runRefresh(seed)
+		}(i)
+	}
+	rwg.Wait()
+	for i, x := range rres {
+		if rerr[i] != nil {
+			return rerr[i]
+		}
+		c.Eval(x.input, true)
+		c.Count("refresh.connection")
+		if x.beforeSession != 0 {
+			c.Fail("refresh-before-session", x.input, fmt.Sprintf("%d get_future_salts requests were written before new_session_created arrived", x.beforeSession))
+		}
+		if x.wrongNum != 0 {
+			c.Fail("refresh-wrong-num", x.input, "get_future_salts does not ask for 4 salts")
+		}
+		// not faster than the interval: the k-th request (k ≥ 1, first one at once) cannot come before
+		// (k-1) ticks; tickers never fire early (they may fire late and then catch up by at most one)
+		if max := int(x.elapsed/x.interval) + 3; x.requests > max {
+			c.Fail("refresh-too-often", x.input, fmt.Sprintf("%d requests within %s at interval %s", x.requests, x.elapsed, x.interval))
+		}
+		// once future salts valid for hours are known, written frames carry the first of them
+		// (the answer is processed concurrently, so the first frames after it may still carry the old one)
+		if x.carried >= 6 && x.carriedOK == 0 {
+			c.Fail("refresh-future-salt-not-used", x.input, fmt.Sprintf("none of %d frames written after future_salts was answered carries the future salt %d", x.carried, x.futureSalt))
+		}
+		c.Count(fmt.Sprintf("refresh.requests=%d", x.requests))
+	}
+
 	outs, err := c.Drv.Batch(lines)
 	if err != nil {
 		return err
@@ -706,7 +1108,7 @@ func run(c *hc.Ctx) error {
 			c.Res.TracesValidated++
 		}
 	}
-	c.Res.Rule = "salts.Salts: 1..25 Store/Get/Reset operations over a pool of 2..10 salt values (overlapping, repeated, already-expired windows; deadlines on and around known expiries), non-trivial = at least one Store and one Get; connection histories: 1..20 events (clock jumps, future_salts, new_session_created, service writes, Invoke with scripted ack / rpc_result / bad_server_salt / bad_msg_notification reactions incl. a second bad salt and late duplicates), the salt / msg_id / seq_no of every written frame is read back by decrypting it; non-trivial = at least 2 writes; distinct = distinct input line"
+	c.Res.Rule = "salts.Salts: 1..25 Store/Get/Reset operations over a pool of 2..10 salt values (overlapping, repeated, already-expired windows; deadlines on and around known expiries), non-trivial = at least one Store and one Get; connection histories: 1..20 events (clock jumps, future_salts, new_session_created, service writes, Invoke with scripted ack / rpc_result / bad_server_salt / bad_msg_notification reactions incl. a second bad salt and late duplicates), the salt / msg_id / seq_no of every written frame is read back by decrypting it; non-trivial = at least 2 writes; refresh loop: whole connections (public New/Run, real clock, 20..40 ms fetch interval) — no get_future_salts before the session exists, one at once after new_session_created, then one per interval asking for 4 salts, and the answered future salt is attached to later frames; distinct = distinct input line"
 	c.PartialNote("sort.Sort is not stable: when several stored salts share one expiry the harness compares the expiry of the returned salt, not its value (connection histories where that happens are monitored but not compared)")
 	c.PartialNote("future_salts arriving between the two transmissions of a bad-salt retry, and rpc.Engine's own retransmission timer (C25), are not scripted; Invoke's reactions are delivered synchronously after each captured frame")
 	return nil
